@@ -237,6 +237,10 @@ class Response:
         elif self.status is not None:
             raise AssertionError("Response headers already set!")
 
+        # the status line is sent verbatim: same character set as a field value
+        if not HEADER_VALUE_RE.fullmatch(status):
+            raise InvalidHeader('%r' % status)
+
         self.status = status
 
         # get the status code from the response here so we can use it to check
